@@ -1,4 +1,438 @@
+/-
+  C16 — property theorems: rotations and spherical coordinates are geometrically correct for
+  every axis.  Exact rationals; `cos/sin` enter as pairs with `c*c + s*s = 1`, `sqrt` as a
+  function `sq` with `SqAt sq y` (`sq y * sq y = y` and `0 ≤ sq y`) at the arguments used — hypotheses,
+  never axioms.  Helper lemmas: `LpProofs/C16/Lemmas.lean`.
+-/
 import LpModel.C16
+import LpProofs.C16.Lemmas
+import Mathlib.Tactic.Ring
+import Mathlib.Tactic.LinearCombination
+import Mathlib.Tactic.Linarith
+import Mathlib.Tactic.FieldSimp
+import Mathlib.Tactic.NormNum
 namespace Lp.C16
-theorem rotation2_def (c s : Rat) : rotation2 c s = ⟨c, -s, s, c⟩ := rfl
+
+/-! ## 3-D rotations about a unit axis (`rotation3 c s n`, the entries as coded) -/
+
+/-- `RᵀR = 1` -/
+theorem rot_orthogonal (c s : Rat) (n : V3) (hc : c * c + s * s = 1) (hn : n.dot n = 1) :
+    (rotation3 c s n).transpose.mul (rotation3 c s n) = M3.one := by
+  obtain ⟨n1, n2, n3⟩ := n
+  simp only [V3.dot] at hn
+  ext <;> simp only [rotation3, M3.transpose, M3.mul, M3.one, M3.col1, M3.col2, M3.col3, V3.dot]
+  · linear_combination (c^2*n1^2 - c^2 - 2*c*n1^2 + n1^2 + 1) * hn + (n2^2 + n3^2) * hc
+  · linear_combination (c^2*n1*n2 - 2*c*n1*n2 + n1*n2) * hn + (-n1*n2) * hc
+  · linear_combination (c^2*n1*n3 - 2*c*n1*n3 + n1*n3) * hn + (-n1*n3) * hc
+  · linear_combination (c^2*n1*n2 - 2*c*n1*n2 + n1*n2) * hn + (-n1*n2) * hc
+  · linear_combination (c^2*n2^2 - 2*c*n2^2 + n2^2 + s^2) * hn + (1 - n2^2) * hc
+  · linear_combination (c^2*n2*n3 - 2*c*n2*n3 + n2*n3) * hn + (-n2*n3) * hc
+  · linear_combination (c^2*n1*n3 - 2*c*n1*n3 + n1*n3) * hn + (-n1*n3) * hc
+  · linear_combination (c^2*n2*n3 - 2*c*n2*n3 + n2*n3) * hn + (-n2*n3) * hc
+  · linear_combination (c^2*n3^2 - 2*c*n3^2 + n3^2 + s^2) * hn + (1 - n3^2) * hc
+
+/-- `R Rᵀ = 1` as well (the transpose is a two-sided inverse) -/
+theorem rot_orthogonal' (c s : Rat) (n : V3) (hc : c * c + s * s = 1) (hn : n.dot n = 1) :
+    (rotation3 c s n).mul (rotation3 c s n).transpose = M3.one := by
+  -- the transpose of R(c,s) is R(c,-s)
+  have ht : (rotation3 c s n).transpose = rotation3 c (-s) n := by
+    obtain ⟨n1, n2, n3⟩ := n
+    ext <;> simp only [rotation3, M3.transpose, M3.col1, M3.col2, M3.col3] <;> ring
+  have h := rot_orthogonal c (-s) n (by linear_combination hc) hn
+  rw [← ht] at h
+  have htt : (rotation3 c s n).transpose.transpose = rotation3 c s n := by
+    ext <;> simp only [M3.transpose, M3.col1, M3.col2, M3.col3]
+  rw [htt] at h
+  exact h
+
+/-- determinant one: a proper rotation, not a reflection -/
+theorem rot_det_one (c s : Rat) (n : V3) (hc : c * c + s * s = 1) (hn : n.dot n = 1) :
+    (rotation3 c s n).det = 1 := by
+  obtain ⟨n1, n2, n3⟩ := n
+  simp only [V3.dot] at hn
+  simp only [rotation3, M3.det, V3.dot, V3.cross]
+  linear_combination (-c^3 + c^2 - c*n1^2*s^2 - c*n2^2*s^2 - c*n3^2*s^2 + n1^2*s^2 + n2^2*s^2 + n3^2*s^2 + s^2) * hn + (1) * hc
+
+/-- the axis is left fixed (for every pair `(c,s)`, even off the unit circle) -/
+theorem rot_fixes_axis (c s : Rat) (n : V3) (hn : n.dot n = 1) :
+    (rotation3 c s n).mulVec n = n := by
+  obtain ⟨n1, n2, n3⟩ := n
+  simp only [V3.dot] at hn
+  ext <;> simp only [rotation3, M3.mulVec, V3.dot]
+  · linear_combination (-c*n1 + n1) * hn
+  · linear_combination (-c*n2 + n2) * hn
+  · linear_combination (-c*n3 + n3) * hn
+
+/-- a vector perpendicular to the axis is turned by the angle in the right-handed sense:
+    `R v = cos α · v + sin α · (n × v)` -/
+theorem rot_perp (c s : Rat) (n v : V3) (hv : n.dot v = 0) :
+    (rotation3 c s n).mulVec v = V3.add (V3.smul c v) (V3.smul s (n.cross v)) := by
+  obtain ⟨n1, n2, n3⟩ := n
+  obtain ⟨v1, v2, v3⟩ := v
+  simp only [V3.dot] at hv
+  ext <;> simp only [rotation3, M3.mulVec, V3.dot, V3.add, V3.smul, V3.cross]
+  · linear_combination (-c*n1 + n1) * hv
+  · linear_combination (-c*n2 + n2) * hv
+  · linear_combination (-c*n3 + n3) * hv
+
+/-- rotations about the same axis compose by adding the angles
+    (`cos(a+b) = c₁c₂ − s₁s₂`, `sin(a+b) = s₁c₂ + c₁s₂`) -/
+theorem rot_compose (c1 s1 c2 s2 : Rat) (n : V3) (hn : n.dot n = 1) :
+    (rotation3 c1 s1 n).mul (rotation3 c2 s2 n) = rotation3 (c1 * c2 - s1 * s2) (s1 * c2 + c1 * s2) n := by
+  obtain ⟨n1, n2, n3⟩ := n
+  simp only [V3.dot] at hn
+  ext <;> simp only [rotation3, M3.mul, M3.col1, M3.col2, M3.col3, V3.dot]
+  · linear_combination (c1*c2*n1^2 - c1*n1^2 - c2*n1^2 + n1^2 - s1*s2) * hn
+  · linear_combination (c1*c2*n1*n2 - c1*n1*n2 - c2*n1*n2 + n1*n2) * hn
+  · linear_combination (c1*c2*n1*n3 - c1*n1*n3 - c2*n1*n3 + n1*n3) * hn
+  · linear_combination (c1*c2*n1*n2 - c1*n1*n2 - c2*n1*n2 + n1*n2) * hn
+  · linear_combination (c1*c2*n2^2 - c1*n2^2 - c2*n2^2 + n2^2 - s1*s2) * hn
+  · linear_combination (c1*c2*n2*n3 - c1*n2*n3 - c2*n2*n3 + n2*n3) * hn
+  · linear_combination (c1*c2*n1*n3 - c1*n1*n3 - c2*n1*n3 + n1*n3) * hn
+  · linear_combination (c1*c2*n2*n3 - c1*n2*n3 - c2*n2*n3 + n2*n3) * hn
+  · linear_combination (c1*c2*n3^2 - c1*n3^2 - c2*n3^2 + n3^2 - s1*s2) * hn
+
+/-- the zero angle is the identity -/
+theorem rot_zero (n : V3) (hn : n.dot n = 1) : rotation3 1 0 n = M3.one := by
+  obtain ⟨n1, n2, n3⟩ := n
+  ext <;> simp only [rotation3, M3.one] <;> ring
+
+/-- reversing the axis reverses the sense of rotation -/
+theorem rot_neg_axis (c s : Rat) (n : V3) : rotation3 c s n.neg = rotation3 c (-s) n := by
+  obtain ⟨n1, n2, n3⟩ := n
+  ext <;> simp only [rotation3, V3.neg] <;> ring
+
+-- non-vacuity: a 3-4-5 angle about the unit axis (2/3, -1/3, 2/3)
+example : (3/5 : Rat) * (3/5) + (4/5) * (4/5) = 1 ∧ (⟨2/3, -1/3, 2/3⟩ : V3).dot ⟨2/3, -1/3, 2/3⟩ = 1 := by
+  simp only [V3.dot]; constructor <;> norm_num
+example : (⟨2/3, -1/3, 2/3⟩ : V3).dot ⟨1, 2, 0⟩ = 0 := by simp only [V3.dot]; norm_num
+
+/-! ## 2-D rotations -/
+
+theorem rot2_orthogonal (c s : Rat) (hc : c * c + s * s = 1) :
+    (rotation2 c s).transpose.mul (rotation2 c s) = M2.one := by
+  ext <;> simp only [rotation2, M2.transpose, M2.mul, M2.one]
+  · linear_combination hc
+  · ring
+  · ring
+  · linear_combination hc
+
+theorem rot2_det_one (c s : Rat) (hc : c * c + s * s = 1) : (rotation2 c s).det = 1 := by
+  simp only [rotation2, M2.det]; linear_combination hc
+
+/-- counter-clockwise by the angle: `R e_x = (cos α, sin α)`, and in general
+    `R v = cos α · v + sin α · v^⊥` with `v^⊥ = (−v_y, v_x)` -/
+theorem rot2_turn (c s : Rat) (v : V2) :
+    (rotation2 c s).mulVec v = ⟨c * v.x + s * (-v.y), c * v.y + s * v.x⟩ := by
+  ext <;> simp only [rotation2, M2.mulVec] <;> ring
+
+theorem rot2_compose (c1 s1 c2 s2 : Rat) :
+    (rotation2 c1 s1).mul (rotation2 c2 s2) = rotation2 (c1 * c2 - s1 * s2) (s1 * c2 + c1 * s2) := by
+  ext <;> simp only [rotation2, M2.mul] <;> ring
+
+/-! ## Axes of any non-zero length: `Rotation_Matrix(alpha, 3, axis)` normalises first
+
+`SqAt sq y` (Lemmas.lean): `sq y` is the non-negative square root of `y` — assumed only at the
+arguments the code actually passes to `sqrt`. -/
+
+/-- an axis of any non-zero length gives the matrix of its direction: scaling the axis by a
+    positive factor changes nothing -/
+theorem normalize_any_length {sq : Rat → Rat} (a : V3) (k : Rat) (hk : 0 < k)
+    (h : SqAt sq (a.dot a)) (hk' : SqAt sq ((V3.smul k a).dot (V3.smul k a)))
+    (ha : a.dot a ≠ 0) : normalize3 sq (V3.smul k a) = normalize3 sq a := by
+  have hN0 := norm3_ne_zero a h ha
+  have hkN : norm3 sq (V3.smul k a) = k * norm3 sq a := by
+    apply hk'.unique (mul_nonneg hk.le h.sq_nonneg)
+    have := norm3_mul_self a h
+    simp only [norm3, V3.smul, V3.dot] at this ⊢
+    linear_combination (k * k) * this
+  have hk0 : k ≠ 0 := ne_of_gt hk
+  ext <;> simp only [normalize3, V3.divs, hkN] <;> simp only [V3.smul] <;> field_simp
+
+theorem rotationAxis_any_length {sq : Rat → Rat} (c s : Rat) (a : V3) (k : Rat) (hk : 0 < k)
+    (h : SqAt sq (a.dot a)) (hk' : SqAt sq ((V3.smul k a).dot (V3.smul k a)))
+    (ha : a.dot a ≠ 0) : rotationAxis sq c s (V3.smul k a) = rotationAxis sq c s a := by
+  have hka : (V3.smul k a).dot (V3.smul k a) ≠ 0 := by
+    have : (V3.smul k a).dot (V3.smul k a) = k * k * a.dot a := by simp only [V3.smul, V3.dot]; ring
+    rw [this]; exact mul_ne_zero (mul_ne_zero (ne_of_gt hk) (ne_of_gt hk)) ha
+  simp only [rotationAxis, if_neg ha, if_neg hka, normalize_any_length a k hk h hk' ha]
+
+/-- the whole statement for the entry point: for every non-zero axis (any length) and every
+    angle the result exists, is proper orthogonal, fixes the axis and turns perpendicular
+    vectors right-handedly about the axis direction. -/
+theorem rotationAxis_proper {sq : Rat → Rat} (c s : Rat) (hc : c * c + s * s = 1)
+    (a : V3) (h : SqAt sq (a.dot a)) (ha : a.dot a ≠ 0) :
+    ∃ R, rotationAxis sq c s a = some R ∧
+      R.transpose.mul R = M3.one ∧ R.mul R.transpose = M3.one ∧ R.det = 1 ∧ R.mulVec a = a ∧
+      ∀ v, a.dot v = 0 → R.mulVec v = V3.add (V3.smul c v) (V3.smul s ((normalize3 sq a).cross v)) := by
+  have hu := normalize3_unit a h ha
+  refine ⟨rotation3 c s (normalize3 sq a), by simp only [rotationAxis, if_neg ha],
+    rot_orthogonal c s _ hc hu, rot_orthogonal' c s _ hc hu, rot_det_one c s _ hc hu, ?_, ?_⟩
+  · have hfix := rot_fixes_axis c s _ hu
+    calc (rotation3 c s (normalize3 sq a)).mulVec a
+        = (rotation3 c s (normalize3 sq a)).mulVec (V3.smul (norm3 sq a) (normalize3 sq a)) := by
+          rw [smul_normalize3 a h ha]
+      _ = a := by rw [mulVec_smul, hfix, smul_normalize3 a h ha]
+  · intro v hv
+    apply rot_perp
+    have hN0 := norm3_ne_zero a h ha
+    simp only [normalize3, V3.divs, V3.dot] at hv ⊢
+    field_simp
+    linear_combination hv
+
+/-- composition for axes of any length -/
+theorem rotationAxis_compose {sq : Rat → Rat} (c1 s1 c2 s2 : Rat) (a : V3) (h : SqAt sq (a.dot a))
+    (ha : a.dot a ≠ 0) :
+    ∃ R1 R2 R12, rotationAxis sq c1 s1 a = some R1 ∧ rotationAxis sq c2 s2 a = some R2 ∧
+      rotationAxis sq (c1 * c2 - s1 * s2) (s1 * c2 + c1 * s2) a = some R12 ∧ R1.mul R2 = R12 :=
+  ⟨_, _, _, by simp only [rotationAxis, if_neg ha], by simp only [rotationAxis, if_neg ha],
+    by simp only [rotationAxis, if_neg ha], rot_compose c1 s1 c2 s2 _ (normalize3_unit a h ha)⟩
+
+-- non-vacuity: the axis (3,4,12)·(1/2) has a rational norm 13/2; `sq` exact there
+example : ∃ sq : Rat → Rat, SqAt sq ((⟨3, 4, 12⟩ : V3).dot ⟨3, 4, 12⟩) ∧
+    SqAt sq ((V3.smul (1/2) ⟨3, 4, 12⟩).dot (V3.smul (1/2) ⟨3, 4, 12⟩)) ∧ (⟨3, 4, 12⟩ : V3).dot ⟨3, 4, 12⟩ ≠ 0 := by
+  refine ⟨fun y => if y = 169 then 13 else 13/2, ⟨?_, ?_⟩, ⟨?_, ?_⟩, ?_⟩ <;> simp [V3.dot, V3.smul] <;> norm_num
+
+/-- the guards of the entry point: only `dim = 2` and `dim = 3` with a 3-vector are accepted -/
+theorem rotationMatrix_guard (sq : Rat → Rat) (c s : Rat) (dim : Int) (axis : List Rat) :
+    (rotationMatrix sq c s dim axis = .err) ↔ (dim ≠ 2 ∧ (dim ≠ 3 ∨ axis.length ≠ 3)) := by
+  unfold rotationMatrix
+  by_cases h2 : dim = 2
+  · simp [h2]
+  · by_cases h3 : dim = 3
+    · subst h3
+      match axis with
+      | [] => simp
+      | [_] => simp
+      | [_, _] => simp
+      | [a, b, d] =>
+        simp only [List.length_cons, List.length_nil]
+        cases rotationAxis sq c s ⟨a, b, d⟩ <;> simp
+      | _ :: _ :: _ :: _ :: _ => simp
+    · simp [h2, h3]
+
+/-! ## Spherical coordinates
+
+`framePoint r ct st cp sp e1 e2 e = r·(ct·e + st·cp·e1 + st·sp·e2)` (Lemmas.lean) is the point at
+distance `r`, polar angle θ from `e` and azimuth φ counted from `e1` towards `e2`.  For a
+right-handed orthonormal frame (`IsRightFrame`: unit, mutually perpendicular, `e1 × e2 = e`)
+increasing φ turns the point right-handedly about `e`. -/
+
+/-- without an axis: the components as stated -/
+theorem spherical_plain (r ct st cp sp : Rat) :
+    spherical r ct st cp sp = ⟨r * st * cp, r * st * sp, r * ct⟩ := rfl
+
+/-- norm of a frame point: `‖v‖² = r²` -/
+theorem framePoint_norm {e1 e2 e : V3} (hF : IsRightFrame e1 e2 e) (r ct st cp sp : Rat)
+    (ht : ct * ct + st * st = 1) (hp : cp * cp + sp * sp = 1) :
+    (framePoint r ct st cp sp e1 e2 e).dot (framePoint r ct st cp sp e1 e2 e) = r * r := by
+  have key : (framePoint r ct st cp sp e1 e2 e).dot (framePoint r ct st cp sp e1 e2 e)
+      = r * r * (ct * ct * e.dot e + st * cp * (st * cp) * e1.dot e1 + st * sp * (st * sp) * e2.dot e2
+          + 2 * ct * (st * cp) * e1.dot e + 2 * ct * (st * sp) * e2.dot e + 2 * (st * cp) * (st * sp) * e1.dot e2) := by
+    simp only [framePoint, V3.smul, V3.add, V3.dot]; ring
+  rw [key, hF.n1, hF.n2, hF.n3, hF.o12, hF.o13, hF.o23]
+  linear_combination (r * r) * ht + (r * r * st * st) * hp
+
+/-- polar angle from the axis: `v·e = r cos θ` (for every pair, on the unit circle or not) -/
+theorem framePoint_polar {e1 e2 e : V3} (hF : IsRightFrame e1 e2 e) (r ct st cp sp : Rat) :
+    (framePoint r ct st cp sp e1 e2 e).dot e = r * ct := by
+  have key : (framePoint r ct st cp sp e1 e2 e).dot e
+      = r * (ct * e.dot e + st * cp * e1.dot e + st * sp * e2.dot e) := by
+    simp only [framePoint, V3.smul, V3.add, V3.dot]; ring
+  rw [key, hF.n3, hF.o13, hF.o23]; ring
+
+/-- … and the component perpendicular to the axis has length `r sin θ`: `‖v‖² − (v·e)² = r² sin²θ` -/
+theorem framePoint_perp {e1 e2 e : V3} (hF : IsRightFrame e1 e2 e) (r ct st cp sp : Rat)
+    (ht : ct * ct + st * st = 1) (hp : cp * cp + sp * sp = 1) :
+    (framePoint r ct st cp sp e1 e2 e).dot (framePoint r ct st cp sp e1 e2 e)
+      - (framePoint r ct st cp sp e1 e2 e).dot e * (framePoint r ct st cp sp e1 e2 e).dot e = r * r * (st * st) := by
+  rw [framePoint_norm hF r ct st cp sp ht hp, framePoint_polar hF]
+  linear_combination (-(r * r)) * ht
+
+/-- increasing φ turns right-handedly about the axis:
+    `(v(φ₁) × v(φ₂))·e = r² sin²θ · sin(φ₂ − φ₁)` with `sin(φ₂−φ₁) = s₂c₁ − c₂s₁` -/
+theorem framePoint_phi_right_handed {e1 e2 e : V3} (hF : IsRightFrame e1 e2 e) (r ct st cp1 sp1 cp2 sp2 : Rat) :
+    ((framePoint r ct st cp1 sp1 e1 e2 e).cross (framePoint r ct st cp2 sp2 e1 e2 e)).dot e
+      = r * r * (st * st) * (sp2 * cp1 - cp2 * sp1) := by
+  have key : ((framePoint r ct st cp1 sp1 e1 e2 e).cross (framePoint r ct st cp2 sp2 e1 e2 e)).dot e
+      = r * r * (st * st) * (sp2 * cp1 - cp2 * sp1) * (e1.cross e2).dot e := by
+    simp only [framePoint, V3.smul, V3.add, V3.dot, V3.cross]; ring
+  rw [key, hF.rh, hF.n3]; ring
+
+/-- the frame of the general branch is orthonormal and right-handed: `e₁ × e₂ = ê` -/
+theorem spherical_frame_right_handed (ev : V3) (aux : Rat) (hev : ev.dot ev = 1)
+    (ha : aux * aux = ev.x * ev.x + ev.y * ev.y) (ha0 : aux ≠ 0) :
+    IsRightFrame (frameE1 ev aux) (frameE2 ev aux) ev := by
+  obtain ⟨ex, ey, ez⟩ := ev
+  simp only [V3.dot] at hev
+  simp only at ha
+  have hia : aux * aux⁻¹ = 1 := mul_inv_cancel₀ ha0
+  have h1 : (ex * ex + ey * ey) * (aux⁻¹ * aux⁻¹) = 1 := by
+    linear_combination (-(aux⁻¹ * aux⁻¹)) * ha + (aux * aux⁻¹ + 1) * hia
+  have h2 : (ex * ex + ey * ey) * aux⁻¹ = aux := by
+    linear_combination (-aux⁻¹) * ha + aux * hia
+  constructor
+  · simp only [frameE1, V3.dot, div_eq_mul_inv]
+    linear_combination (ez * ez) * h1 + ha + hev
+  · simp only [frameE2, V3.dot, div_eq_mul_inv]
+    linear_combination h1
+  · simp only [V3.dot]; exact hev
+  · simp only [frameE1, frameE2, V3.dot, div_eq_mul_inv]; ring
+  · simp only [frameE1, V3.dot, div_eq_mul_inv]
+    linear_combination ez * h2
+  · simp only [frameE2, V3.dot, div_eq_mul_inv]; ring
+  · ext <;> simp only [frameE1, frameE2, V3.cross, div_eq_mul_inv]
+    · linear_combination ex * hia
+    · linear_combination ey * hia
+    · linear_combination ez * h1
+
+theorem frame_plain : IsRightFrame ⟨1, 0, 0⟩ ⟨0, 1, 0⟩ ⟨0, 0, 1⟩ := by
+  constructor <;> simp [V3.dot, V3.cross]
+
+theorem frame_antiz : IsRightFrame ⟨-1, 0, 0⟩ ⟨0, 1, 0⟩ ⟨0, 0, -1⟩ := by
+  constructor <;> simp [V3.dot, V3.cross]
+
+theorem spherical_eq_framePoint (r ct st cp sp : Rat) :
+    spherical r ct st cp sp = framePoint r ct st cp sp ⟨1, 0, 0⟩ ⟨0, 1, 0⟩ ⟨0, 0, 1⟩ := by
+  ext <;> simp only [spherical, framePoint, V3.smul, V3.add] <;> ring
+
+theorem sphericalFrame_eq_framePoint (r ct st cp sp : Rat) (ev : V3) (aux : Rat) :
+    sphericalFrame r ct st cp sp ev aux = framePoint r ct st cp sp (frameE1 ev aux) (frameE2 ev aux) ev := by
+  ext <;> simp only [sphericalFrame, framePoint, frameE1, frameE2, V3.smul, V3.add, div_eq_mul_inv] <;> ring
+
+/-- **every non-zero axis, all three branches**: the result of
+    `Spherical_Coordinates(r,θ,φ,axis)` is the frame point of a right-handed orthonormal frame
+    `(e₁, e₂, ê)` whose third vector is the direction of the axis, and the frame depends on the
+    axis only.  For `ê = +z` the frame is `(x, y, z)` (plain formula), for `ê = −z` it is
+    `(−x, y, −z)`, otherwise the general frame with `aux ≠ 0`. -/
+theorem sphericalAxis_spec {sq : Rat → Rat} (axis : V3) (hax : axis.dot axis ≠ 0)
+    (h : SqAt sq (axis.dot axis))
+    (h' : SqAt sq ((normalize3 sq axis).x * (normalize3 sq axis).x + (normalize3 sq axis).y * (normalize3 sq axis).y)) :
+    ∃ e1 e2, IsRightFrame e1 e2 (normalize3 sq axis) ∧
+      ∀ r ct st cp sp, sphericalAxis sq r ct st cp sp axis
+        = framePoint r ct st cp sp e1 e2 (normalize3 sq axis) := by
+  have hu := normalize3_unit axis h hax
+  have hN0 := norm3_ne_zero axis h hax
+  generalize hev : normalize3 sq axis = ev at hu h'
+  obtain ⟨ex, ey, ez⟩ := ev
+  simp only at h'
+  have haux := h'.sq_mul
+  simp only [V3.dot] at hu
+  by_cases hz : sq (ex * ex + ey * ey) = 0
+  · have hw0 : ex * ex + ey * ey = 0 := h'.eq_zero_iff.mp hz
+    have hx : ex = 0 := by nlinarith [mul_self_nonneg ex, mul_self_nonneg ey]
+    have hy : ey = 0 := by nlinarith [mul_self_nonneg ex, mul_self_nonneg ey]
+    subst hx hy
+    have hzz : (ez - 1) * (ez + 1) = 0 := by linear_combination hu
+    by_cases hpos : ez > 0
+    · have hz1 : ez = 1 := by
+        rcases mul_eq_zero.mp hzz with h1 | h1 <;> linarith
+      subst hz1
+      refine ⟨⟨1, 0, 0⟩, ⟨0, 1, 0⟩, frame_plain, ?_⟩
+      intro r ct st cp sp
+      have hb : sphericalBranch sq axis = .plain := by
+        simp only [sphericalBranch, hev]
+        rw [if_pos (Or.inr ⟨hz, hpos⟩)]
+      simp only [sphericalAxis, hb, spherical_eq_framePoint]
+    · have hz1 : ez = -1 := by
+        rcases mul_eq_zero.mp hzz with h1 | h1
+        · exfalso; apply hpos; linarith
+        · linarith
+      subst hz1
+      refine ⟨⟨-1, 0, 0⟩, ⟨0, 1, 0⟩, frame_antiz, ?_⟩
+      intro r ct st cp sp
+      have hb : sphericalBranch sq axis = .antiz := by
+        simp only [sphericalBranch, hev]
+        rw [if_neg (by rintro (h1 | ⟨_, h2⟩); exact hN0 h1; exact hpos h2), if_pos hz]
+      simp only [sphericalAxis, hb]
+      ext <;> simp only [spherical, framePoint, V3.smul, V3.add] <;> ring
+  · refine ⟨frameE1 ⟨ex, ey, ez⟩ (sq (ex * ex + ey * ey)), frameE2 ⟨ex, ey, ez⟩ (sq (ex * ex + ey * ey)),
+      spherical_frame_right_handed _ _ (by simpa [V3.dot] using hu) haux hz, ?_⟩
+    intro r ct st cp sp
+    have hb : sphericalBranch sq axis = .general := by
+      simp only [sphericalBranch, hev]
+      rw [if_neg (by rintro (h1 | ⟨h1, _⟩); exact hN0 h1; exact hz h1), if_neg hz]
+    simp only [sphericalAxis, hb, hev, sphericalFrame_eq_framePoint]
+
+/-- `‖v‖² = r²` for every non-zero axis (all branches) -/
+theorem spherical_norm {sq : Rat → Rat} (axis : V3) (hax : axis.dot axis ≠ 0) (h : SqAt sq (axis.dot axis))
+    (h' : SqAt sq ((normalize3 sq axis).x * (normalize3 sq axis).x + (normalize3 sq axis).y * (normalize3 sq axis).y))
+    (r ct st cp sp : Rat) (ht : ct * ct + st * st = 1) (hp : cp * cp + sp * sp = 1) :
+    (sphericalAxis sq r ct st cp sp axis).dot (sphericalAxis sq r ct st cp sp axis) = r * r := by
+  obtain ⟨e1, e2, hF, hv⟩ := sphericalAxis_spec axis hax h h'
+  rw [hv]; exact framePoint_norm hF r ct st cp sp ht hp
+
+/-- polar angle θ from the axis direction `ê = axis/‖axis‖`: `v·ê = r cos θ` and
+    `‖v‖² − (v·ê)² = r² sin² θ`, for every non-zero axis (all branches) -/
+theorem spherical_polar {sq : Rat → Rat} (axis : V3) (hax : axis.dot axis ≠ 0) (h : SqAt sq (axis.dot axis))
+    (h' : SqAt sq ((normalize3 sq axis).x * (normalize3 sq axis).x + (normalize3 sq axis).y * (normalize3 sq axis).y))
+    (r ct st cp sp : Rat) (ht : ct * ct + st * st = 1) (hp : cp * cp + sp * sp = 1) :
+    (sphericalAxis sq r ct st cp sp axis).dot (normalize3 sq axis) = r * ct ∧
+    (sphericalAxis sq r ct st cp sp axis).dot (sphericalAxis sq r ct st cp sp axis)
+      - (sphericalAxis sq r ct st cp sp axis).dot (normalize3 sq axis) * (sphericalAxis sq r ct st cp sp axis).dot (normalize3 sq axis)
+      = r * r * (st * st) := by
+  obtain ⟨e1, e2, hF, hv⟩ := sphericalAxis_spec axis hax h h'
+  rw [hv]; exact ⟨framePoint_polar hF r ct st cp sp, framePoint_perp hF r ct st cp sp ht hp⟩
+
+/-- increasing φ moves the point around the axis in the right-handed sense, for every non-zero
+    axis (all branches): `(v(φ₁) × v(φ₂))·ê = r² sin²θ sin(φ₂−φ₁)` -/
+theorem spherical_phi_right_handed {sq : Rat → Rat} (axis : V3) (hax : axis.dot axis ≠ 0) (h : SqAt sq (axis.dot axis))
+    (h' : SqAt sq ((normalize3 sq axis).x * (normalize3 sq axis).x + (normalize3 sq axis).y * (normalize3 sq axis).y))
+    (r ct st cp1 sp1 cp2 sp2 : Rat) :
+    ((sphericalAxis sq r ct st cp1 sp1 axis).cross (sphericalAxis sq r ct st cp2 sp2 axis)).dot (normalize3 sq axis)
+      = r * r * (st * st) * (sp2 * cp1 - cp2 * sp1) := by
+  obtain ⟨e1, e2, hF, hv⟩ := sphericalAxis_spec axis hax h h'
+  rw [hv, hv]; exact framePoint_phi_right_handed hF r ct st cp1 sp1 cp2 sp2
+
+/-- the explicit branches: an axis along `+z` of any length `L > 0` gives the plain formula … -/
+theorem spherical_axis_plus_z {sq : Rat → Rat} (L : Rat) (hL : 0 < L) (h : SqAt sq (L * L)) (h0 : SqAt sq 0)
+    (r ct st cp sp : Rat) : sphericalAxis sq r ct st cp sp ⟨0, 0, L⟩ = spherical r ct st cp sp := by
+  have hd : (⟨0, 0, L⟩ : V3).dot ⟨0, 0, L⟩ = L * L := by simp only [V3.dot]; ring
+  have hn : norm3 sq ⟨0, 0, L⟩ = L := by
+    simp only [norm3, hd]; exact h.unique hL.le rfl
+  have hL0 : L ≠ 0 := ne_of_gt hL
+  have hev : normalize3 sq ⟨0, 0, L⟩ = ⟨0, 0, 1⟩ := by
+    ext <;> simp only [normalize3, V3.divs, hn]
+    · exact zero_div L
+    · exact zero_div L
+    · exact div_self hL0
+  have hb : sphericalBranch sq ⟨0, 0, L⟩ = .plain := by
+    simp only [sphericalBranch, hev]
+    rw [if_pos (Or.inr ⟨by norm_num; exact h0.eq_zero_iff.mpr rfl, by norm_num⟩)]
+  simp only [sphericalAxis, hb]
+
+/-- … and an axis along `−z` gives the frame `(−x, y, −z)` -/
+theorem spherical_axis_minus_z {sq : Rat → Rat} (L : Rat) (hL : 0 < L) (h : SqAt sq (L * L)) (h0 : SqAt sq 0)
+    (r ct st cp sp : Rat) :
+    sphericalAxis sq r ct st cp sp ⟨0, 0, -L⟩ = ⟨-(r * st * cp), r * st * sp, -(r * ct)⟩ := by
+  have hd : (⟨0, 0, -L⟩ : V3).dot ⟨0, 0, -L⟩ = L * L := by simp only [V3.dot]; ring
+  have hn : norm3 sq ⟨0, 0, -L⟩ = L := by
+    simp only [norm3, hd]; exact h.unique hL.le rfl
+  have hL0 : L ≠ 0 := ne_of_gt hL
+  have hev : normalize3 sq ⟨0, 0, -L⟩ = ⟨0, 0, -1⟩ := by
+    ext <;> simp only [normalize3, V3.divs, hn]
+    · exact zero_div L
+    · exact zero_div L
+    · rw [neg_div, div_self hL0]
+  have hb : sphericalBranch sq ⟨0, 0, -L⟩ = .antiz := by
+    simp only [sphericalBranch, hev, hn]
+    have hz : sq (0 * 0 + 0 * 0) = 0 := by norm_num; exact h0.eq_zero_iff.mpr rfl
+    rw [if_neg (by rintro (h1 | ⟨_, h2⟩); exact hL0 h1; norm_num at h2), if_pos hz]
+  simp only [sphericalAxis, hb, spherical]
+
+-- non-vacuity of the hypotheses of `sphericalAxis_spec` in the general branch: axis (3,4,12)
+-- (norm 13, direction (3,4,12)/13, aux = 5/13)
+example : ∃ sq : Rat → Rat, let a : V3 := ⟨3, 4, 12⟩
+    a.dot a ≠ 0 ∧ SqAt sq (a.dot a) ∧
+    SqAt sq ((normalize3 sq a).x * (normalize3 sq a).x + (normalize3 sq a).y * (normalize3 sq a).y) ∧
+    sphericalBranch sq a = .general := by
+  refine ⟨fun y => if y = 169 then 13 else 5/13, ?_⟩
+  simp only [V3.dot, normalize3, norm3, V3.divs, sphericalBranch]
+  norm_num
+  constructor <;> constructor <;> norm_num
+-- … and of the explicit branches
+example : ∃ sq : Rat → Rat, SqAt sq ((2 : Rat) * 2) ∧ SqAt sq 0 :=
+  ⟨fun y => if y = 0 then 0 else 2, ⟨by norm_num, by norm_num⟩, ⟨by norm_num, by norm_num⟩⟩
+example : IsRightFrame ⟨1, 0, 0⟩ ⟨0, 1, 0⟩ ⟨0, 0, 1⟩ := frame_plain
+
 end Lp.C16
